@@ -234,3 +234,16 @@ package smpp34
 
 //@ func (b *Bind) GetCommand
 //@   inline
+
+// ---------------------------------------------------------------- delivery receipt text (C18, C03)
+// fieldAfter(s, key): the characters after the first occurrence of key up to the next space or the end; empty if key is absent.
+//@ pure func restAfter(s Bytes, key Bytes) Bytes = drop(s, sindex(s, key) + len(key))
+//@ pure func fieldAfter(s Bytes, key Bytes) Bytes = sindex(s, key) == -1 ? eps : (sindex(restAfter(s, key), " ") == -1 ? restAfter(s, key) : take(restAfter(s, key), sindex(restAfter(s, key), " ")))
+
+//@ func findSubValue
+//@   props C18,C03
+//@   ensures [C18 field] value == fieldAfter(s, cat(sub, ":"))
+
+//@ func ExtractDeliveryReceipt
+//@   props C18,C03
+//@   ensures [C18 fields] err == nil && d.ID == fieldAfter(s, "id:") && d.Sub == fieldAfter(s, "sub:") && d.Dlvrd == fieldAfter(s, "dlvrd:") && d.SubDate == fieldAfter(s, "submit date:") && d.DoneDate == fieldAfter(s, "done date:") && d.Stat == fieldAfter(s, "stat:") && d.Err == fieldAfter(s, "err:") && d.Text == fieldAfter(s, "text:")
